@@ -27,9 +27,9 @@ package scs
 //@   pure
 //@   ensures fadd(fmul(c.qL, w(builder, c.xa)), fmul(c.qM, fmul(w(builder, c.xa), w(builder, c.xa)))) == f0
 //@ contract (*builder).newInternalVariable
-//@   pure
+//@   assigns *builder.cs
 //@   requires wfB(builder)
-//@   ensures result.Coeff == f1
+//@   ensures result.Coeff == f1 && 0 <= result.VID && result.VID < 4294967296
 //@ contract (*builder).NewHint
 //@   trusted "hint outputs are fresh wires with coefficient one (newHint: external calls into the constraint system)"
 //@   pure
@@ -77,11 +77,26 @@ package scs
 
 // ---- arithmetic. Add / Mul go through the sum/product splitting with gate re-use (splitSum, splitProd,
 // addConstraintExist, mulConstraintExist): ASSUMED here, not yet verified.
+// filterConstantSum: the constants summed into k, the other inputs kept as terms (stated for two and three inputs);
+// reduce: sorts the terms and merges those on the same wire, keeping the sum (sort.Sort is external)
+//@ contract (*builder).filterConstantSum
+//@   trusted "not verified: separates constants from terms; the terms are appended into the builder's scratch buffer bufL, whose contents nothing else observes (not modelled)"
+//@   assigns *builder.cs
+//@   ensures allocated(result.0)
+//@   ensures len(in) == 2 ==> fadd(tsum(builder, result.0), result.1) == fadd(denS(builder, in[0]), denS(builder, in[1]))
+//@   ensures len(in) == 3 ==> fadd(tsum(builder, result.0), result.1) == fadd(fadd(denS(builder, in[0]), denS(builder, in[1])), denS(builder, in[2]))
+//@ contract (*builder).reduce
+//@   trusted "not verified: in-place sort and merge of terms on the same wire"
+//@   assigns *builder.cs, deep(l)
+//@   ensures allocated(result) && tsum(builder, result) == old(tsum(builder, l)) && (old(len(l)) > 0 ==> len(result) > 0)
 //@ contract (*builder).Add
-//@   trusted "not yet verified: n-ary sum splitting with gate re-use"
-//@   assigns *builder.cs, *builder.mtBooleans
-//@   ensures len(in) == 0 ==> denS(builder, result) == fadd(denS(builder, i1), denS(builder, i2))
-//@   ensures len(in) == 1 ==> denS(builder, result) == fadd(fadd(denS(builder, i1), denS(builder, i2)), denS(builder, in[0]))
+//@   props C05 C04
+//@   assigns *builder.cs, *builder.mtBooleans, *builder.mAddInstructions
+//@   requires wfB(builder)
+//@   lemma @no-terms len(vars) == 0 ==> tsum(builder, vars) == f0
+//@   lemma @unfold len(vars) > 0 ==> tsum(builder, vars) == fadd(denT(builder, vars[0]), tsum(builder, vars[1:]))
+//@   ensures @sum2 len(in) == 0 ==> denS(builder, result) == fadd(denS(builder, i1), denS(builder, i2))
+//@   ensures @sum3 len(in) == 1 ==> denS(builder, result) == fadd(fadd(denS(builder, i1), denS(builder, i2)), denS(builder, in[0]))
 //@ contract (*builder).neg
 //@   props C05 C04
 //@   assigns *builder.cs
@@ -95,10 +110,23 @@ package scs
 //@   requires wfB(builder)
 //@   ensures @sub2 len(in) == 0 ==> denS(builder, result) == fsub(denS(builder, i1), denS(builder, i2))
 //@   ensures @sub3 len(in) == 1 ==> denS(builder, result) == fsub(fsub(denS(builder, i1), denS(builder, i2)), denS(builder, in[0]))
+// filterConstantProd: the constants multiplied into k, the other inputs kept as terms (stated for two inputs;
+// the loop appends to a scratch buffer of the builder)
+//@ contract (*builder).filterConstantProd
+//@   trusted "not verified: separates constants from terms; the terms are appended into the builder's scratch buffer bufL, whose contents nothing else observes (not modelled)"
+//@   assigns *builder.cs
+//@   ensures allocated(result.0)
+//@   ensures len(in) == 2 ==> fmul(tprod(builder, result.0), result.1) == fmul(denS(builder, in[0]), denS(builder, in[1]))
 //@ contract (*builder).Mul
-//@   trusted "not yet verified: n-ary product splitting with gate re-use"
-//@   assigns *builder.cs, *builder.mtBooleans
-//@   ensures len(in) == 0 ==> denS(builder, result) == fmul(denS(builder, i1), denS(builder, i2))
+//@   props C05 C04
+//@   assigns *builder.cs, *builder.mtBooleans, *builder.mMulInstructions
+//@   requires wfB(builder)
+//   no terms: the product is the constant; a zero factor makes the product zero; otherwise k*v0*(rest)
+//@   lemma @no-terms len(vars) == 0 ==> tprod(builder, vars) == f1
+//@   lemma @zero-factor (exists j int :: 0 <= j && j < len(vars) && vars[j].Coeff == f0) ==> tprod(builder, vars) == f0
+//@   lemma @unfold len(vars) > 0 ==> tprod(builder, vars) == fmul(denT(builder, vars[0]), tprod(builder, vars[1:]))
+//@   lemma @scaled len(vars) > 0 ==> fmul(fmul(fmul(vars[0].Coeff, k), w(builder, vars[0].VID)), tprod(builder, vars[1:])) == fmul(fmul(denT(builder, vars[0]), tprod(builder, vars[1:])), k)
+//@   ensures @product len(in) == 0 ==> denS(builder, result) == fmul(denS(builder, i1), denS(builder, i2))
 
 //@ contract (*builder).Neg
 //@   props C05 C04
@@ -317,7 +345,7 @@ package scs
 //@ contract (*builder).addConstraintExist
 //@   props C05 C04
 //@   assigns *builder.mAddInstructions
-//@   requires wfB(builder) && builder.cs != nil
+//@   requires wfB(builder)
 //@   lemma @recorded-add result.1 ==> ((c.XA == a.VID && c.XB == b.VID) || (c.XA == b.VID && c.XB == a.VID)) && addGate(builder, c) == f0
 //   the recorded gate solved for its output, as it is (same coefficients and constant) and rescaled by q4/q2 when
 //   q3*q2 == q1*q4 and there is no constant; each for the two orders in which the gate may hold the wires
@@ -333,12 +361,46 @@ package scs
 //@ contract (*builder).mulConstraintExist
 //@   props C05 C04
 //@   assigns *builder.mMulInstructions
-//@   requires wfB(builder) && builder.cs != nil
+//@   requires wfB(builder)
 //@   lemma @recorded-mul result.1 ==> ((c.XA == a.VID && c.XB == b.VID) || (c.XA == b.VID && c.XB == a.VID)) && mulGate(builder, c) == f0
 //@   lemma @same mulGate(builder, c) == f0 && ((c.XA == a.VID && c.XB == b.VID) || (c.XA == b.VID && c.XB == a.VID)) && coeffG(builder.cs, c.QM) == fmul(a.Coeff, b.Coeff) ==> fmul(f1, w(builder, c.XC)) == fmul(denT(builder, a), denT(builder, b))
 //@   lemma @same-swapped mulGate(builder, c) == f0 && ((c.XA == a.VID && c.XB == b.VID) || (c.XA == b.VID && c.XB == a.VID)) && coeffG(builder.cs, c.QM) == fmul(b.Coeff, a.Coeff) ==> fmul(f1, w(builder, c.XC)) == fmul(denT(builder, a), denT(builder, b))
 //@   lemma @scaled mulGate(builder, c) == f0 && ((c.XA == a.VID && c.XB == b.VID) || (c.XA == b.VID && c.XB == a.VID)) && coeffG(builder.cs, c.QM) != f0 ==> fmul(fmul(finv(coeffG(builder.cs, c.QM)), fmul(a.Coeff, b.Coeff)), w(builder, c.XC)) == fmul(denT(builder, a), denT(builder, b)) && fmul(fmul(finv(coeffG(builder.cs, c.QM)), fmul(b.Coeff, a.Coeff)), w(builder, c.XC)) == fmul(denT(builder, a), denT(builder, b))
 //@   ensures @reused result.1 ==> denT(builder, result.0) == fmul(denT(builder, a), denT(builder, b))
+
+// ---- splitting a sum into two-input addition gates (each either re-used or newly emitted). tsum(b, r): the sum of
+// the terms of r (uninterpreted, unfolded one term at a time by the two lemmas).
+//@ spec func tsum(b *builder, r LinearExpression) F
+//@ contract (*builder).addAddGate
+//@   trusted "records the addition gate a + b + k - xc = 0 through the constraint system (external); it holds under w"
+//@   pure
+//@   ensures fadd(fadd(denT(builder, a), denT(builder, b)), k) == w(builder, xc)
+//@ contract (*builder).splitSum
+//@   props C05 C04
+//@   assigns *builder.cs, *builder.mAddInstructions
+//@   requires wfB(builder)
+//@   lemma @tsum0 len(r) == 0 ==> tsum(builder, r) == f0
+//@   lemma @tsum-unfold len(r) > 0 ==> tsum(builder, r) == fadd(denT(builder, r[0]), tsum(builder, r[1:]))
+//   the empty term denotes zero
+//@   lemma @empty-term fmul(f0, w(builder, 0)) == f0
+//   re-association of ((acc + r0 + qC) + rest) + 0 (the field's associativity is not among the solver's axioms)
+//@   lemma @assoc len(r) > 0 ==> fadd(fadd(fadd(fadd(denT(builder, acc), denT(builder, r[0])), qC), tsum(builder, r[1:])), f0) == fadd(fadd(denT(builder, acc), fadd(denT(builder, r[0]), tsum(builder, r[1:]))), qC)
+//@   ensures @sum denT(builder, result) == fadd(fadd(denT(builder, acc), tsum(builder, r)), (k != nil ? *k : f0))
+
+// ---- splitting a product into two-input multiplication gates. tprod(b, r): the product of the terms of r.
+//@ spec func tprod(b *builder, r LinearExpression) F
+//@ contract (*builder).addMulGate
+//@   trusted "records the multiplication gate a * b - c = 0 (with c's wire) through the constraint system (external); it holds under w"
+//@   pure
+//@   ensures fmul(denT(builder, a), denT(builder, b)) == w(builder, c.VID)
+//@ contract (*builder).splitProd
+//@   props C05 C04
+//@   assigns *builder.cs, *builder.mMulInstructions
+//@   requires wfB(builder)
+//@   lemma @tprod0 len(r) == 0 ==> tprod(builder, r) == f1
+//@   lemma @tprod-unfold len(r) > 0 ==> tprod(builder, r) == fmul(denT(builder, r[0]), tprod(builder, r[1:]))
+//@   lemma @assoc len(r) > 0 ==> fmul(fmul(denT(builder, acc), denT(builder, r[0])), tprod(builder, r[1:])) == fmul(denT(builder, acc), fmul(denT(builder, r[0]), tprod(builder, r[1:])))
+//@   ensures @prod denT(builder, result) == fmul(denT(builder, acc), tprod(builder, r))
 
 // debug information only (symbolic stack, printable terms): emits no constraint, writes only what it allocates
 //@ contract (*builder).newDebugInfo
